@@ -62,6 +62,7 @@ enum {
     F_ITERATE_EARLY_STOP,
     F_SWEEP,
     F_OPS_ON_DUPLICATE,
+    F_WIDE_MANY_CONTAINERS,
     F_NFLAGS
 };
 static const char *s_flag_names[F_NFLAGS] = {
@@ -72,7 +73,7 @@ static const char *s_flag_names[F_NFLAGS] = {
     "case_variant_lookup", "object_member_removed", "array_remove_first", "array_remove_middle", "array_remove_last",
     "array_index_eq_size", "array_index_beyond_size", "absent_key_lookup", "deep_chain_ge_500", "print_buffer_grew_gt_256",
     "text_tree_duplicate_keys", "compare_duplicate_checked", "strings_with_invalid_utf8", "iterate_early_stop",
-    "sweep_case", "container_ops_on_a_duplicate"};
+    "sweep_case", "container_ops_on_a_duplicate", "wide_tree_ge_1000_containers"};
 
 #define MAX_DEPTH 8
 #define OBJDEPTH_COMPARE_LIMIT 10 /* cJSON_Compare visits nested objects 2^depth times (see report) */
@@ -2426,6 +2427,165 @@ static void case_chain(struct mon_rng *r) {
     }
 }
 
+/* builds the library tree of a model tree through the API (object keys of the model must be unique) */
+static struct aws_json_value *api_from_model(struct mon_rng *r, struct mnode *m) {
+    struct aws_json_value *v = NULL;
+    switch (m->kind) {
+        case K_NULL:
+            v = aws_json_value_new_null(s_alloc);
+            break;
+        case K_TRUE:
+        case K_FALSE:
+            v = aws_json_value_new_boolean(s_alloc, m->kind == K_TRUE);
+            break;
+        case K_NUM:
+            v = aws_json_value_new_number(s_alloc, m->num);
+            break;
+        case K_STR:
+            v = aws_json_value_new_string(s_alloc, aws_byte_cursor_from_array(m->str, m->slen));
+            break;
+        case K_ARR:
+            v = aws_json_value_new_array(s_alloc);
+            for (size_t i = 0; v && i < m->n; ++i) {
+                struct aws_json_value *k = api_from_model(r, m->kid[i]);
+                if (!k || aws_json_value_add_array_element(v, k) != AWS_OP_SUCCESS) {
+                    mon_violation("C11:array:add", "add_array_element %zu failed while building a wide tree", i);
+                    aws_json_value_destroy(k);
+                }
+            }
+            break;
+        default:
+            v = aws_json_value_new_object(s_alloc);
+            for (size_t i = 0; v && i < m->n; ++i) {
+                struct aws_json_value *k = api_from_model(r, m->kid[i]);
+                if (!k || add_member(r, v, m->key[i], m->klen[i], k) != AWS_OP_SUCCESS) {
+                    mon_violation("C11:object:add-refused", "add_to_object of member %zu failed while building a wide tree", i);
+                    aws_json_value_destroy(k);
+                }
+            }
+            break;
+    }
+    if (!v) {
+        mon_violation("C11:create-failed", "aws_json_value_new_%s returned NULL", s_kind_names[m->kind]);
+    }
+    m->lib = v;
+    return v;
+}
+
+static struct mnode *wide_item(struct mon_rng *r, unsigned mix, size_t *containers) {
+    unsigned k = mix == 0 ? 0 : mix == 1 ? 1 : (unsigned)mon_below(r, 6);
+    struct mnode *m;
+    switch (k) {
+        case 0:
+            m = mn_new(K_ARR);
+            ++*containers;
+            break;
+        case 1:
+            m = mn_new(K_OBJ);
+            ++*containers;
+            break;
+        case 2:
+            m = mn_new(K_ARR);
+            mn_add(m, NULL, 0, mn_num((double)mon_below(r, 1000)));
+            ++*containers;
+            break;
+        case 3:
+            m = mn_new(K_OBJ);
+            mn_add(m, "tags", 4, mn_new(K_ARR));
+            mn_add(m, "attrs", 5, mn_new(K_OBJ));
+            *containers += 3;
+            break;
+        case 4:
+            m = mn_new(K_OBJ);
+            mn_add(m, "k", 1, mn_new(mon_chance(r, 1, 2) ? K_TRUE : K_NULL));
+            ++*containers;
+            break;
+        default:
+            m = mn_num((double)mon_below(r, 100000));
+            break;
+    }
+    return m;
+}
+
+/* shallow but wide trees: hundreds to thousands of (mostly empty or tiny) containers in ONE text, below, at and
+ * beyond the vendored parser's nesting limit of 1000 counted in containers instead of in depth */
+static void case_wide(struct mon_rng *r) {
+    static const size_t counts[] = {998, 999, 1000, 1001, 1024, 1500, 2500, 500};
+    size_t n = counts[mon_below(r, sizeof(counts) / sizeof(counts[0]))];
+    if (mon_chance(r, 1, 3)) {
+        n = (size_t)mon_range(r, 300, 3000);
+    }
+    unsigned shape = (unsigned)mon_below(r, 4); /* 0 flat array, 1 flat object, 2 array chain with siblings, 3 two-level */
+    unsigned mix = (unsigned)mon_below(r, 4);   /* 0 all [], 1 all {}, 2/3 mixed */
+    bool api = mon_chance(r, 1, 2);
+    mon_fp(0x71DE + n * 64 + shape * 8 + mix * 2 + api);
+    mon_sample("wide n=%zu shape=%u mix=%u %s", n, shape, mix, api ? "api" : "text");
+    size_t containers = 1;
+    struct mnode *M;
+    if (shape == 1) {
+        M = mn_new(K_OBJ);
+        for (size_t i = 0; i < n; ++i) {
+            char key[24];
+            int kl = snprintf(key, sizeof(key), "m%zu", i);
+            mn_add(M, key, (size_t)kl, wide_item(r, mix, &containers));
+        }
+    } else if (shape == 2) {
+        /* chain of arrays, every level holding a few small siblings in front of (or behind) the child */
+        size_t depth = (size_t)mon_range(r, 20, 600);
+        size_t per = n / depth + 1;
+        M = mn_new(K_ARR);
+        for (size_t lvl = 0; lvl < depth; ++lvl) {
+            struct mnode *p = mn_new(K_ARR);
+            ++containers;
+            bool child_first = mon_chance(r, 1, 4);
+            if (child_first) {
+                mn_add(p, NULL, 0, M);
+            }
+            for (size_t i = 0; i < per; ++i) {
+                mn_add(p, NULL, 0, wide_item(r, mix, &containers));
+            }
+            if (!child_first) {
+                mn_add(p, NULL, 0, M);
+            }
+            M = p;
+        }
+    } else if (shape == 3) {
+        M = mn_new(K_ARR);
+        size_t groups = 1 + (size_t)mon_below(r, 30);
+        for (size_t g = 0; g < groups; ++g) {
+            struct mnode *grp = mn_new(K_ARR);
+            ++containers;
+            for (size_t i = 0; i < n / groups + 1; ++i) {
+                mn_add(grp, NULL, 0, wide_item(r, mix, &containers));
+            }
+            mn_add(M, NULL, 0, grp);
+        }
+    } else {
+        M = mn_new(K_ARR);
+        for (size_t i = 0; i < n; ++i) {
+            mn_add(M, NULL, 0, wide_item(r, mix, &containers));
+        }
+    }
+    if (containers >= 1000) {
+        mon_flag(F_WIDE_MANY_CONTAINERS);
+    }
+    mon_count("wide_trees", 1);
+    mon_count_max("max_containers_in_one_text", containers);
+    if (api) {
+        struct mon_alloc_stats st0;
+        mon_guard_stats(&st0);
+        struct aws_json_value *L = api_from_model(r, M);
+        mon_flag(F_API_BUILT);
+        struct mnode *E = extract(L);
+        model_cmp(M, E, CMP_EXACT, "built");
+        mn_free(E);
+        finish_tree(L, M, "wide-api", r, &st0);
+        mn_free(M);
+    } else {
+        case_text(r, M, false);
+    }
+}
+
 /* deterministic sweeps (independent of the seed): case indices 0..9 */
 static void sweep_numbers(struct mon_rng *r, int which, bool text) {
     struct mnode *M = mn_new(K_ARR);
@@ -2581,6 +2741,10 @@ static void run_case(uint64_t c) {
     unsigned pick = (unsigned)mon_below(r, 128);
     if (pick < 2) {
         case_chain(r);
+        return;
+    }
+    if (pick < 4) {
+        case_wide(r);
         return;
     }
     struct budget bg;
